@@ -5,7 +5,8 @@
    termination inside CPython's ast, docutils, astor, twisted, lunr (DESIGN.md 5.C01 residual). *)
 From Coq Require Import ZArith NArith List Bool.
 From PydoctorVerif Require Import Base.Sexp Model.Proc Model.Barrier Gen.Skeleton
-     Proofs.ProcProofs Proofs.BarrierProofs Model.ProcIR Gen.ProcCode Proofs.ProcIRProofs.
+     Proofs.ProcProofs Proofs.BarrierProofs Model.ProcIR Gen.ProcCode Proofs.ProcIRProofs
+     Model.ExitIR Gen.ExitCode Proofs.ExitIRProofs.
 Import ListNotations.
 
 (* The work-list machine, for EVERY project (import cycles, self-imports, unknown targets, unparsable
@@ -70,6 +71,12 @@ Theorem C01_exit_status :
     (r = 2%Z <-> ~ ((0 < v)%N /\ w = true) /\ (0 < d + o)%N) /\
     (r = 0%Z <-> ~ ((0 < v)%N /\ w = true) /\ (d + o = 0)%N).
 Proof. exact exit_status_spec. Qed.
+
+(* ... and the exit-status region of driver.main (everything after make(system) up to `return exitcode`), translated from the
+   CURRENT source into Model/ExitIR.v on every run (harness/gen/gen_c01_exit.py): interpreting it IS exit_status. *)
+Theorem C01_code_exit_status_is_model :
+  forall d o v w, run_exit exit_code_of_main d o v w = exit_status d o v w.
+Proof. exact run_exit_eq. Qed.
 
 (* Soundness of the escape analysis, for every skeleton and every class table whose ancestor lists are
    transitively closed: if `total` holds, no behaviour of the risky calls within their contract makes
